@@ -4,7 +4,9 @@ import (
 	"bytes"
 	"encoding/binary"
 	"errors"
+	"layeh.com/radius/dictionary"
 	"net"
+	"path/filepath"
 	"sort"
 	"strconv"
 	"strings"
@@ -268,6 +270,34 @@ func evalHelper(op string, args []string) string {
 			b = append(b, strconv.FormatUint(v, 10))
 		}
 		return strings.Join(a, ",") + "|" + strings.Join(b, ",")
+	case "extconsts":
+		// VALUE lines that another package's dictionary declares for THIS attribute (radius-dict-gen -ref):
+		// that package's init() registers their names in this attribute's Strings map, so String() of the
+		// number must give the name written in the dictionary
+		e := lookupHelper(args[0])
+		if e == nil || e.Strings == nil || args[1] == "-" {
+			return "BAD-CASE"
+		}
+		m := e.Strings()
+		var a []string
+		for _, kv := range strings.Split(args[1], ",") {
+			f := strings.SplitN(kv, "=", 2)
+			if len(f) != 2 {
+				return "BAD-CASE"
+			}
+			k, err := strconv.ParseUint(f[1], 10, 64)
+			if err != nil {
+				return "BAD-CASE"
+			}
+			name, ok := m[k]
+			if !ok {
+				name = "<not registered>"
+			} else if e.Str(k) != name {
+				return "String()-differs-from-Strings-map"
+			}
+			a = append(a, strconv.FormatUint(k, 10)+"="+name)
+		}
+		return strings.Join(a, ",")
 	}
 	return "UNKNOWN-OP"
 }
@@ -504,6 +534,56 @@ func genC12(g *Gen, tier string, emit func(op string, args ...string)) {
 				s = "-"
 			}
 			emit("consts", e.Pkg+"."+e.Ident, s)
+		}
+	}
+	// names declared for an attribute of ANOTHER package (the -ref option of the package's go:generate line)
+	root := dsRepoRoot()
+	rels, fieldsOf := c18HelperPackages(root)
+	for k, rel := range rels {
+		opts, _, dictFile, err := c18DictGenInvocation(fieldsOf[k])
+		if err != nil || len(opts.refs) == 0 {
+			continue
+		}
+		p := dictionary.Parser{Opener: &dictionary.FileSystemOpener{Root: filepath.Join(root, filepath.FromSlash(rel))}, IgnoreIdenticalAttributes: true}
+		d, err := p.ParseFile(dictFile)
+		if err != nil {
+			continue
+		}
+		for attrName, pkgPath := range opts.refs {
+			var target *helperEntry
+			for _, e := range registry {
+				if e.Pkg == pkgPath && e.DictName == attrName {
+					target = e
+				}
+			}
+			if target == nil {
+				continue
+			}
+			// per number the LAST declaration in this dictionary; numbers the target's own dictionary declares
+			// as well are left out (which init() runs last is the linker's business)
+			own := map[uint64]bool{}
+			for _, v := range target.DictValues {
+				own[v.Number] = true
+			}
+			last := map[uint64]string{}
+			var order []uint64
+			for _, v := range d.Values {
+				if v.Attribute != attrName || own[v.Number] || strings.ContainsAny(v.Name, ",=\t ") {
+					continue
+				}
+				if _, seen := last[v.Number]; !seen {
+					order = append(order, v.Number)
+				}
+				last[v.Number] = v.Name
+			}
+			sort.Slice(order, func(i, j int) bool { return order[i] < order[j] })
+			var dv []string
+			for _, n := range order {
+				dv = append(dv, last[n]+"="+strconv.FormatUint(n, 10))
+			}
+			if len(dv) > 0 {
+				emit("extconsts", target.Pkg+"."+target.Ident, strings.Join(dv, ","))
+			}
 		}
 	}
 }
